@@ -44,7 +44,7 @@ CORE = ['make_ab', 'make_ab_cd', 'make_q_auto', 'eps_float_tuple', 'eps_int_tupl
         'seq_count', 'save_png_palette', 'save_png_colorful', 'save_ppm_colormap', 'save_ppm_colormap_b', 'save_svg_colorful', 'save_pdf',
         'matrix_iter_verbose', 'helper_epc', 'cli_terminal', 'fail_overflow', 'fail_colour', 'fail_mode']
 PAIRS_SMALL = [('make_m1_numeric', 'make_m1_other'), ('make_m2_alnum', 'make_m3_byte'), ('make_m1_numeric', 'make_parts'),
-               ('make_m3_kanji', 'make_m1_other'), ('fail_mode', 'make_m1_numeric')]
+               ('make_m3_kanji', 'make_m3_byte'), ('fail_mode', 'make_m1_numeric')]
 PAIRS_SAVE = [('ppm_small_a', 'ppm_small_b'), ('png_small', 'svg_small'), ('seq_small', 'make_m2_alnum'), ('ppm_small_a', 'make_m1_numeric'),
               ('iter_verbose_v2_a', 'iter_verbose_v2_b'), ('make_1h', 'make_1h_other')]
 PAIRS_LARGE = [('save_ppm_colormap', 'save_ppm_colormap_b'), ('save_png_palette', 'save_svg'),
